@@ -830,8 +830,8 @@ def gen_churn_scripts(tier, seed, variant):
 def check_c13(run):
     return script_property(
         run, gen_churn_scripts,
-        relevant=lambda f: f.kind in ("G-FAIL", "CRASH"),
-        rule="insert/remove interleavings (fifo / lifo / random / sawtooth) of 300-3000 steps whose live size never exceeds n in {1..50}, through HashMap::insert / entry / remove and HashTable::insert_unique / find_entry+remove, under all 8 hash-plan classes (well mixed through all-colliding), with a lookup of an absent key every 50 steps; after every step the dumped bucket count must satisfy the proved invariant (at most 16 buckets, or a table of half the size could not hold 2(n+1) elements) for the largest live size seen so far; a harness timeout (non-terminating operation) is a finding")
+        relevant=lambda f: f.kind in ("G-FAIL", "CRASH") or (f.kind == "B-FAIL" and "SafeWF" in f.text) or (f.kind == "A-FAIL" and "library panicked" in f.text),
+        rule="insert/remove interleavings (fifo / lifo / random / sawtooth) of 300-3000 steps whose live size never exceeds n in {1..50}, through HashMap::insert / entry / remove and HashTable::insert_unique / find_entry+remove, under all 8 hash-plan classes (well mixed through all-colliding), with a lookup of an absent key every 50 steps; after every step the dumped bucket count must satisfy the proved invariant (at most 16 buckets, or a table of half the size could not hold 2(n+1) elements) for the largest live size seen so far; every dumped state must satisfy SafeWF, whose counter clauses (growth_left = usable EMPTY slots, at least one EMPTY byte) are what probe termination rests on; a harness timeout (non-terminating operation) or a fired probe-overrun assertion is a finding")
 
 def gen_entry_scripts(tier, seed, variant):
     """C14: entry-style operations at full load, on tombstone-saturated and unallocated tables"""
